@@ -554,7 +554,7 @@ theorem oldDynEnc_eq (t : Ty) : ∀ (v : Val), ByteGranular t = true → wf t v 
 structure Binding where
   name : String
   id : Nat
-  bus : List Nat      -- character codes, 1..4 of them
+  bus : List Nat      -- character codes of the bus name, any number of them
   ty : Ty
   deriving Repr, DecidableEq, Inhabited
 
@@ -570,14 +570,19 @@ def pad (n : Nat) (l : List Nat) : List Nat := l ++ List.replicate (n - l.length
 /-- the bus tag of a frame as the name it is compared with: up to the first NUL -/
 def busName (tag : List Nat) : List Nat := tag.takeWhile (· != 0)
 
+/-- what a frame can carry of a bus name: its first four characters (`std::array<char,4> bus`) -/
+def Binding.tag (b : Binding) : List Nat := b.bus.take 4
+
 /-- `Encode(name, json)`: first binding with that name -/
 def encodeFrame (bs : List Binding) (name : String) (v : Val) : Option Frame :=
   (bs.find? (·.name == name)).map fun b =>
-    { bus := pad 4 b.bus, sid := b.id, dlc := (encBytes b.ty v).length, data := pad 8 (encBytes b.ty v) }
+    { bus := pad 4 b.tag, sid := b.id, dlc := (encBytes b.ty v).length, data := pad 8 (encBytes b.ty v) }
 
-/-- `Decode(frame)`: first binding whose id and bus match, then the payload -/
+/-- `Decode(frame)`: first binding whose id matches and whose bus name, cut to the tag, is the
+frame's tag (since fix 6533a8d; before it the whole name was compared, so a name longer than four
+characters never matched its own frames); then the payload -/
 def decodeFrame (bs : List Binding) (f : Frame) : Option (String × Val) :=
-  match bs.find? (fun b => b.id == f.sid && b.bus == busName f.bus) with
+  match bs.find? (fun b => b.id == f.sid && b.tag == busName f.bus) with
   | none => none
   | some b => (decBytes b.ty f.data).map fun v => (b.name, v)
 
@@ -605,7 +610,7 @@ theorem decBytes_pad (t : Ty) (v : Val) (h : wf t v = true) (n : Nat) :
 bus names free of NUL -/
 structure BindingsOk (bs : List Binding) : Prop where
   names : bs.Pairwise (fun a b => a.name ≠ b.name)
-  keys : bs.Pairwise (fun a b => ¬ (a.id = b.id ∧ a.bus = b.bus))
+  keys : bs.Pairwise (fun a b => ¬ (a.id = b.id ∧ a.tag = b.tag))
   bus : ∀ b ∈ bs, ∀ c ∈ b.bus, c ≠ 0
 
 theorem find_name (bs : List Binding) (h : bs.Pairwise (fun a b => a.name ≠ b.name)) (b : Binding)
@@ -619,8 +624,8 @@ theorem find_name (bs : List Binding) (h : bs.Pairwise (fun a b => a.name ≠ b.
     · have : a.name ≠ b.name := h.1 b hb'
       simp [this, ih h.2 hb']
 
-theorem find_key (bs : List Binding) (h : bs.Pairwise (fun a b => ¬ (a.id = b.id ∧ a.bus = b.bus)))
-    (b : Binding) (hb : b ∈ bs) : bs.find? (fun a => a.id == b.id && a.bus == b.bus) = some b := by
+theorem find_key (bs : List Binding) (h : bs.Pairwise (fun a b => ¬ (a.id = b.id ∧ a.tag = b.tag)))
+    (b : Binding) (hb : b ∈ bs) : bs.find? (fun a => a.id == b.id && a.tag == b.tag) = some b := by
   induction bs with
   | nil => cases hb
   | cons a as ih =>
@@ -628,7 +633,7 @@ theorem find_key (bs : List Binding) (h : bs.Pairwise (fun a b => ¬ (a.id = b.i
     rcases List.mem_cons.mp hb with rfl | hb'
     · simp
     · have := h.1 b hb'
-      have hne : (a.id == b.id && a.bus == b.bus) = false := by
+      have hne : (a.id == b.id && a.tag == b.tag) = false := by
         simp only [Bool.and_eq_false_imp, beq_iff_eq, beq_eq_false_iff_ne]
         intro h1 h2; exact this ⟨h1, h2⟩
       simp only [List.find?_cons, hne]
